@@ -144,7 +144,7 @@ def run(ctx):
     # ---- (c) whole builds through the CLI under a wall bound: timeouts, lost blobs, alias fan-out -------
     run_cli(ctx)
     # ---- (d) broad randomized CLI worlds (shared generator; the C04-owned oracles — termination, crash, resolution — are reported here)
-    results, cov = _cliworld.run_worlds(ctx, 24 if quick else 300, "C04")
+    results, cov = _cliworld.run_worlds(ctx, 30 if quick else 300, "C04")
     _cliworld.report(ctx, results, cov, "C04")
     if disagreements and len(ctx.violations) == viol_before:
         c, o, r = min(disagreements, key=lambda t: t[0]["n"])
@@ -354,6 +354,8 @@ def check_intest(ctx, cases, res, info, mode):
 
 
 def replay(ctx, rep):
+    if "world" in rep:
+        return _cliworld.replay(ctx, rep)
     if rep.get("request", {}).get("op") == "restore.load":
         import os, shutil
         rq = dict(rep["request"], dir=os.path.join(ctx.scratch("replay-restore"), "1"))
